@@ -4,8 +4,11 @@ import random, re
 import refmodel as R
 
 FOREIGN = ['#[doc = "text"]', '/// a doc comment', '#[repr(C)]', '#[cfg_attr(all(), allow(dead_code))]', '#[allow(unused)]',
-           '#[serde(rename = "x")]', '#[a::b(c, d = 1)]', '#[must_use]', '#[non_exhaustive]', '/** block doc */', '#[rustfmt::skip]', '#[cfg(all())]']
-FIELD_FOREIGN = ['#[doc = "f"]', '/// field doc', '#[serde(skip)]', '#[allow(dead_code)]', '#[a::b]', '#[cfg(all())]']
+           '#[serde(rename = "x")]', '#[a::b(c, d = 1)]', '#[must_use]', '#[non_exhaustive]', '/** block doc */', '#[rustfmt::skip]', '#[cfg(all())]',
+           # foreign *path* attributes whose last segment merely looks like an owned name: never derive_ex's to strip
+           '#[probe::debug]', '#[clippy::eq]', '#[a::hash(x)]', '#[x::derive_ex(Clone)]', '#[tool::default]', '#[a::b::ord(reverse)]', '#[::partial_eq::x]']
+FIELD_FOREIGN = ['#[doc = "f"]', '/// field doc', '#[serde(skip)]', '#[allow(dead_code)]', '#[a::b]', '#[cfg(all())]',
+                 '#[probe::debug(ignore)]', '#[clippy::eq]', '#[a::hash = 1]', '#[tool::default(3)]', '#[a::partial_ord(key = x)]', '#[::ord::y]', '#[x::derive_ex(Clone)]']
 VIS = ["", "pub ", "pub(crate) ", "pub(super) ", "pub(in crate::m) "]
 GENERICS = [("", ""), ("<T>", ""), ("<T: Clone, U>", ""), ("<'a, T: 'a>", ""), ("<T = u8>", ""), ("<T, const N: usize>", ""), ("<const N: usize = 3>", ""),
             ("<T>", " where T: Copy"), ("<'a, 'b: 'a, T>", " where T: 'b + Sized, u8: Copy")]
